@@ -178,4 +178,64 @@ __CPROVER_ensures((0 <= gq && gq < __CPROVER_return_value) ==> a[gq] != x)
   __CPROVER_ensures(!g_error ==> __CPROVER_return_value == SPEC_OFFSET(self, this_bin))
 #define LC_K_pds_get_offset_0 LC_K_pdm_get_index_0
 
+
+/* ================= Interfile PDFS header reader: find_segment_sequence (InterfileHeader.cxx) =================
+   Statement kernel: the loop that re-orders the per-segment header lists (given in STREAM order) into vectors indexed by
+   segment number. Rank r (position after sorting by average ring difference) has segment number r - segment_zero_num and
+   came from stream position location_and_segment_num[r].first.  From the property ("writing data with its header and
+   reading the pair back yields equal geometry ... whatever the segment order in the stream"): the entry of segment
+   (r - zero) in each of the three re-ordered vectors is the entry the header gave at that segment's stream position.
+   Ghost rank g_r stands for every rank; the three input lists and the three output vectors are projected onto it. */
+int g_r, g_zero, g_rloc;                 /* ghost rank, rank of segment 0, stream position of the ghost rank */
+int g_in_min_ring_difference, g_in_max_ring_difference, g_in_num_rings_per_segment; /* header entries at stream position g_rloc */
+int g_out_min_ring_diff, g_out_max_ring_diff, g_out_num_rings_per_segment;          /* re-ordered entries of segment g_r - g_zero */
+int g_ow_min_ring_diff, g_ow_max_ring_diff, g_ow_num_rings_per_segment;             /* how often each was written */
+int g_fss_min_seg, g_fss_max_seg;        /* index range of the re-ordered vectors */
+/* location_and_segment_num[i] as built by the preceding loop (ASSUMED from reading it): .second == i - segment_zero_num,
+   .first == stream position of rank i */
+int LS_SEG(int i)
+__CPROVER_requires(i >= 0 && i <= g_fss_max_seg - g_fss_min_seg)
+__CPROVER_assigns()
+__CPROVER_ensures(__CPROVER_return_value == i - g_zero)
+;
+int LS_LOC(int i)
+__CPROVER_requires(i >= 0 && i <= g_fss_max_seg - g_fss_min_seg)
+__CPROVER_assigns()
+__CPROVER_ensures(__CPROVER_return_value >= 0 && __CPROVER_return_value <= g_fss_max_seg - g_fss_min_seg)
+__CPROVER_ensures(i == g_r ==> __CPROVER_return_value == g_rloc)
+;
+#define FSS_IN(name)                                                                                                  \
+  int IN_##name(int loc)                                                                                              \
+  __CPROVER_requires(loc >= 0 && loc <= g_fss_max_seg - g_fss_min_seg) /* std::vector::operator[] inside its size */  \
+  __CPROVER_assigns()                                                                                                 \
+  __CPROVER_ensures(loc == g_rloc ==> __CPROVER_return_value == g_in_##name);
+FSS_IN(min_ring_difference)
+FSS_IN(max_ring_difference)
+FSS_IN(num_rings_per_segment)
+#define SORTED_WRITE(name, seg, e)                                                                                    \
+  do                                                                                                                  \
+    {                                                                                                                 \
+      __CPROVER_assert((seg) >= g_fss_min_seg && (seg) <= g_fss_max_seg, "re-ordered vector written inside its index range"); \
+      if ((seg) == g_r - g_zero)                                                                                      \
+        {                                                                                                             \
+          g_out_##name = (e);                                                                                         \
+          ++g_ow_##name;                                                                                              \
+        }                                                                                                             \
+    }                                                                                                                 \
+  while (0)
+#define FSS_DONE(c) (g_ow_min_ring_diff == (c) && g_ow_max_ring_diff == (c) && g_ow_num_rings_per_segment == (c))
+#define FSS_SPEC (g_out_min_ring_diff == g_in_min_ring_difference && g_out_max_ring_diff == g_in_max_ring_difference \
+                  && g_out_num_rings_per_segment == g_in_num_rings_per_segment)
+#define CONTRACT_K_fss_reorder                                                                                       \
+  __CPROVER_requires(num_segments >= 1 && num_segments <= 1000 && g_zero >= 0 && g_zero < num_segments)                \
+  __CPROVER_requires(g_fss_min_seg == -g_zero && g_fss_max_seg == num_segments - 1 - g_zero)                           \
+  __CPROVER_requires(g_r >= 0 && g_r < num_segments && g_rloc >= 0 && g_rloc < num_segments && FSS_DONE(0))            \
+  __CPROVER_assigns(g_out_min_ring_diff, g_out_max_ring_diff, g_out_num_rings_per_segment, g_ow_min_ring_diff, g_ow_max_ring_diff, g_ow_num_rings_per_segment) \
+  __CPROVER_ensures(FSS_DONE(1) && FSS_SPEC)
+#define LC_K_fss_reorder_0                                                                                           \
+  __CPROVER_assigns(i, g_out_min_ring_diff, g_out_max_ring_diff, g_out_num_rings_per_segment, g_ow_min_ring_diff, g_ow_max_ring_diff, g_ow_num_rings_per_segment) \
+  __CPROVER_loop_invariant(0 <= i && i <= num_segments)                                                                \
+  __CPROVER_loop_invariant(FSS_DONE(g_r < i ? 1 : 0) && (g_r < i ==> FSS_SPEC))                                        \
+  __CPROVER_decreases(num_segments - i)
+
 #endif
